@@ -434,8 +434,9 @@ func (s *Server) Reset(reason string, timeoutMs int64) (*statejson.ResetDescript
 		}
 	}()
 
+	// s.Clear() above has already released the reservation that was reset; releasing once more here
+	// would cancel the reservation of an invoke that was accepted in between
 	done := <-s.ResetDoneChan
-	s.Release()
 
 	if done.ErrorType != "" {
 		return nil, errors.New(string(done.ErrorType))
